@@ -7,6 +7,7 @@ import Ucan.Driver.Cbor
 import Ucan.Driver.Did
 import Ucan.Driver.Token
 import Ucan.Driver.Container
+import Ucan.Driver.Meta
 /-!
 Line-protocol driver: one case per input line, one canonical answer per output line.
 Imports models and specs only (core Lean), never lemmas or property files.
@@ -27,6 +28,7 @@ def dispatch (toks : List String) : String :=
       else if t.startsWith "did." then runDid toks
       else if t.startsWith "tok." then runToken toks
       else if t.startsWith "ctn." then runContainer toks
+      else if t.startsWith "meta." then runMeta toks
       else if t.startsWith "go." then some "ok"   -- Go-side oracle checks: the model has nothing to add
       else none
   match r with
